@@ -81,9 +81,9 @@ func TestC03_ConcurrentRealStore(t *testing.T) {
 			Scheme: sc, SigningTime: time.Now().Add(-time.Hour), Chain: chain.X509(), Key: chain.Leaf().Key})
 	}
 	const workers = 8
-	rounds := 150
+	rounds := 1500
 	if stats.Tier() == "thorough" {
-		rounds = 3000
+		rounds = 12000
 	}
 	type bad struct{ key, msg string }
 	var mu sync.Mutex
